@@ -1,7 +1,9 @@
 import VermouthModel.C17
 import VermouthModel.C17_Residues
 import VermouthModel.C17_Dssp
+import VermouthModel.C17_Select
 import Generated.C17Tables
+import Generated.C17Selectors
 open Proto C17
 
 def atomOf (t : Tok) : Option Atom := do
@@ -76,6 +78,72 @@ def encDssp : Except DsspErr (List Char) → String
   | .ok cs => "ok " ++ encStr (String.ofList cs)
   | .error .stopIteration => "stopiteration"
   | .error .ioError => "ioerror"
+
+/-! follow-up round: node tables with the residue attributes themselves -/
+
+def pyValOf : Tok → Option PyVal
+  | Tok.none => some PyVal.none
+  | Tok.int i => some (PyVal.int i)
+  | Tok.str s => some (PyVal.str s)
+  | _ => none
+
+def nodeOf (t : Tok) : Option Node := do
+  match ← t.list? with
+  | [k, c, ri, rn, ic, s, d] =>
+    pure { key := ← k.int?, chain := ← pyValOf c, resid := ← pyValOf ri, resname := ← pyValOf rn,
+           icode := ← pyValOf ic, src := ← optNatOf s, dst := ← optNatOf d }
+  | _ => none
+
+def nmolOf (t : Tok) : Option NMol := do (← t.list?).mapM nodeOf
+
+def nsysOf (t : Tok) : Option (List NMol) := do (← t.list?).mapM nmolOf
+
+def posOf (t : Tok) : Option (Option (List Bool)) :=
+  match t with
+  | Tok.none => some none
+  | Tok.list l => (l.mapM Tok.nat?).map fun fs => some (fs.map (· != 0))
+  | _ => none
+
+def attrOf (t : Tok) : Option Attr :=
+  match t with
+  | Tok.int 0 => some Attr.chain
+  | Tok.int 1 => some Attr.resid
+  | Tok.int 2 => some Attr.resname
+  | Tok.int 3 => some Attr.icode
+  | _ => none
+
+def editOf (t : Tok) : Option (Int × Attr × PyVal) := do
+  match ← t.list? with
+  | [k, a, v] => pure (← k.int?, ← attrOf a, ← pyValOf v)
+  | _ => none
+
+def eopOf (t : Tok) : Option EOp := do
+  match ← t.list? with
+  | [Tok.int 0, mi, es] => pure (EOp.edit (← mi.nat?) (← (← es.list?).mapM editOf))
+  | [Tok.int 1, mi] => pure (EOp.iterres (← mi.nat?))
+  | [Tok.int 2, mi] => pure (EOp.isprot (← mi.nat?))
+  | [Tok.int 3, mi] => pure (EOp.seqres (← mi.nat?))
+  | [Tok.int 4, mi, seq] => pure (EOp.annot (← mi.nat?) (← nats? seq))
+  | [Tok.int 5, mi] => pure (EOp.convert (← mi.nat?))
+  | [Tok.int 6, seq] => pure (EOp.annotsys (← nats? seq))
+  | [Tok.int 7] => pure EOp.convsys
+  | _ => none
+
+def encObs : Obs → String
+  | .nomol => "nomol"
+  | .done => "ok"
+  | .tuples t e => encList (t.map fun ks => encList (ks.map encInt)) ++ " exact " ++ encBool e
+  | .flag b => encBool b
+  | .seq l => encList (l.map encVal)
+  | .err e => encErr e
+
+def encEState (st : EState) : String :=
+  encList (st.map fun ns => encList (ns.map fun n => encList [encVal n.src, encVal n.dst]))
+
+def theTables : Tables := ⟨C17Tables.ssCg, C17Tables.patterns, C17Selectors.proteinResidues⟩
+
+def encSel (sys : List NMol) : String :=
+  " sel " ++ encList (sys.map fun ns => encBool (isProtein C17Selectors.proteinResidues ns))
 
 def handle (_ : Unit) (toks : List Tok) : Unit × String :=
   let r : Option String :=
@@ -178,6 +246,37 @@ def handle (_ : Unit) (toks : List Tok) : Unit × String :=
     | [Tok.str "readdssp", ls] => do
         let ls ← (← ls.list?).mapM Tok.str?
         pure (encDssp (readDssp2 (ls.map String.toList)))
+    | [Tok.str "isprot", m] => do
+        let ns ← nmolOf m
+        pure (encBool (isProtein C17Selectors.proteinResidues ns) ++ " all " ++ encBool (selectAll ns))
+    | [Tok.str "haspos", ps] => do
+        let ps ← (← ps.list?).mapM posOf
+        pure (encList (ps.map fun p => encBool (hasPosition p)))
+    | [Tok.str "selsys", sys, seq] => do
+        let sys ← nsysOf sys
+        let seq ← nats? seq
+        match annotateSystemN C17Selectors.proteinResidues sys seq with
+        | .ok s' => pure ("ok " ++ encList (s'.map fun p => encMol p.2) ++ encSel sys)
+        | .error e => pure (encErr e ++ encSel sys)
+    | [Tok.str "cliss3", sys, ss] => do
+        let sys ← nsysOf sys
+        let ss ← ss.str?
+        pure (encMols2 (cliSsN C17Tables.ssCg C17Tables.patterns C17Selectors.proteinResidues sys ss.toList) ++ encSel sys)
+    | [Tok.str "clicollagen3", sys] => do
+        let sys ← nsysOf sys
+        pure (encMols2 (cliCollagenN C17Selectors.proteinResidues sys) ++ encSel sys)
+    | [Tok.str "clidssp3", sys] => do
+        let sys ← (← sys.list?).mapM fun t => do
+          match ← t.list? with
+          | [m, pos, ss] => pure ((← nmolOf m, ← (← pos.list?).mapM posOf, ← nats? ss) : NMol × List (Option (List Bool)) × List Nat)
+          | _ => none
+        pure (encMols2 (cliDsspN C17Tables.ssCg C17Tables.patterns C17Selectors.proteinResidues sys)
+          ++ encSel (sys.map (·.1))
+          ++ " clean " ++ encList (sys.map fun p => encList ((cleanKeys p.1 p.2.1).map encInt)))
+    | [Tok.str "edithist", sys, ops] => do
+        let sys ← nsysOf sys
+        let ops ← (← ops.list?).mapM eopOf
+        pure (" | ".intercalate ((runEdits theTables sys ops).map fun r => encObs r.1 ++ " ; " ++ encEState r.2))
     | _ => none
   ((), r.getD "bad-op")
 
